@@ -133,3 +133,6 @@ Qed.
 Example decode_ex1 : decode_timeout [49; 48; 83]%N = Some 10000000000. Proof. reflexivity. Qed.
 Example decode_ex2 : decode_timeout [53; 49; 50; 52; 48; 57; 52; 72]%N = Some max_int64. Proof. reflexivity. Qed.
 Example decode_ex3 : decode_timeout [45; 53; 83]%N = None. Proof. reflexivity. Qed.
+
+Lemma halved_never_later now d : now <= d -> now <= halved_deadline now d <= d.
+Proof. intros H. unfold halved_deadline. assert (0 <= (d - now) / 2 <= d - now) by (split; [apply Z.div_pos; lia | apply Z.div_le_upper_bound; lia]). lia. Qed.
